@@ -115,3 +115,18 @@ register("C02", "exploration",
          "Bounded: generated netlists of the structural subset (precedence families, random expression trees, primitive and blackbox instances, shuffled order, fuzzed layout, comments, synthetic-looking names, port mismatches) are parsed by the real pipeline and compared net by net, under every valuation, with an independent evaluator of the subset.",
          "oracle = vlib.vlog evaluator written from the Verilog semantics of the subset; lark grammar is data, only testable by running it",
          explanation="bounded stand-in of the parser contract")
+
+register("C03", "exploration",
+         "Bounded: write (both styles) then read back generated circuits; name, io, registry, per-pin nets, function at every output and driven blackbox input pin under every valuation, graph identity when no constants and behavioral=False; a sample through to_file/from_file.",
+         "oracle = vlib.oracle simulation of both circuits; scope in evidence.bound",
+         explanation="bounded stand-in of the round-trip contract")
+
+register("C14", "exploration",
+         "Bounded only (five regular expressions vs an LALR parser over all texts: no contract a solver can discharge): generated netlists of the documented subset with fuzzed layout are parsed by both parsers and the circuits compared (io, registry, graph identity modulo constant names).",
+         "both sides are the code under test (relational property); the full parser is checked separately by C02",
+         explanation="bounded stand-in; 0 obligations proved")
+
+register("C15", "exploration",
+         "Bounded: bench texts from a dialect model (both cases, BUFF, DFF chains, line orders, whitespace variants, comments) are read by the real reader and compared net by net under every valuation with an independent evaluator; writer->reader round trip on generated circuits incl. constants.",
+         "oracle = bench evaluator in bounded/c15.py + vlib.oracle; regex tokenisation only testable by running it",
+         explanation="bounded stand-in of the bench contracts")
